@@ -99,12 +99,13 @@ structure Inv (tk : Tasks) (seen : List Name) : Prop where
   seenKeys : ∀ p ∈ tk, p.1 ∈ seen
   hasGroup : ∀ p ∈ tk, ∀ b, p.2.subtaskOf = some b → ∃ g, lookup tk b = some g ∧ g.hasSubtask = true
   groupDeps : ∀ b g, lookup tk b = some g → List.Sublist (subsIn b (vals tk)) g.taskDep
+  groupPlain : ∀ p ∈ tk, p.2.hasSubtask = true → p.2.subtaskOf = none
 
 theorem inv_nil : Inv [] [] :=
-  ⟨by simp, by simp, by simp, by simp [lookup]⟩
+  ⟨by simp, by simp, by simp, by simp [lookup], by simp⟩
 
 theorem Inv.mono {tk : Tasks} {seen : List Name} (h : Inv tk seen) (more : List Name) : Inv tk (seen ++ more) :=
-  ⟨h.keyName, fun p hp => by simp [h.seenKeys p hp], h.hasGroup, h.groupDeps⟩
+  ⟨h.keyName, fun p hp => by simp [h.seenKeys p hp], h.hasGroup, h.groupDeps, h.groupPlain⟩
 
 /-- no task claims to be a sub-task of a name that is not a key -/
 theorem Inv.subs_nil {tk : Tasks} {seen : List Name} (h : Inv tk seen) (b : Name) (hb : lookup tk b = none) :
@@ -128,7 +129,12 @@ theorem Inv.unseen {tk : Tasks} {seen : List Name} (h : Inv tk seen) (k : Name) 
 theorem Inv.insert_new {tk : Tasks} {seen : List Name} (h : Inv tk seen) (k : Name) (t : Task)
     (hnew : lookup tk k = none) (hname : t.name = k) (hsub : t.subtaskOf = none) :
     Inv (insert tk k t) (seen ++ [k]) := by
-  refine ⟨?_, ?_, ?_, ?_⟩
+  refine ⟨?_, ?_, ?_, ?_, ?_⟩
+  rotate_left 4
+  · intro p hp _
+    rcases mem_insert tk k t p hp with h' | h'
+    · exact h.groupPlain p h' ‹_›
+    · subst h'; exact hsub
   · intro p hp
     rcases mem_insert tk k t p hp with h' | h'
     · exact h.keyName p h'
@@ -158,7 +164,12 @@ theorem Inv.insert_grow {tk : Tasks} {seen : List Name} (h : Inv tk seen) (b : N
     (hg : lookup tk b = some g) :
     Inv (insert tk b { g with taskDep := g.taskDep ++ extra }) seen := by
   have hmem := lookup_mem tk b g hg
-  refine ⟨?_, ?_, ?_, ?_⟩
+  refine ⟨?_, ?_, ?_, ?_, ?_⟩
+  rotate_left 4
+  · intro p hp hs
+    rcases mem_insert _ _ _ p hp with h' | h'
+    · exact h.groupPlain p h' hs
+    · subst h'; exact h.groupPlain (b, g) hmem hs
   · intro p hp
     rcases mem_insert _ _ _ p hp with h' | h'
     · exact h.keyName p h'
@@ -192,9 +203,15 @@ theorem Inv.insert_grow {tk : Tasks} {seen : List Name} (h : Inv tk seen) (b : N
 theorem Inv.insert_sub {tk : Tasks} {seen : List Name} (h : Inv tk seen) (b full : Name) (g sub : Task)
     (front : List Name) (hnew : lookup tk full = none) (hne : full ≠ b) (hg : lookup tk b = some g)
     (hgs : g.hasSubtask = true) (hdeps : g.taskDep = front ++ [full])
-    (hfront : List.Sublist (subsIn b (vals tk)) front) (hname : sub.name = full) (hsub : sub.subtaskOf = some b) :
+    (hfront : List.Sublist (subsIn b (vals tk)) front) (hname : sub.name = full) (hsub : sub.subtaskOf = some b)
+    (hleaf : sub.hasSubtask = false) :
     Inv (insert tk full sub) (seen ++ [full]) := by
-  refine ⟨?_, ?_, ?_, ?_⟩
+  refine ⟨?_, ?_, ?_, ?_, ?_⟩
+  rotate_left 4
+  · intro p hp hs
+    rcases mem_insert _ _ _ p hp with h' | h'
+    · exact h.groupPlain p h' hs
+    · subst h'; rw [hleaf] at hs; cases hs
   · intro p hp
     rcases mem_insert _ _ _ p hp with h' | h'
     · exact h.keyName p h'
@@ -228,5 +245,44 @@ theorem Inv.insert_sub {tk : Tasks} {seen : List Name} (h : Inv tk seen) (b full
       · have : ¬ (some b = some c) := by intro e; cases e; exact hcb rfl
         simp only [this, if_false, List.append_nil]
         exact h.groupDeps c gc hgc
+
+/-- the group task is replaced by a group task of the same name whose `task_dep` ends with the old one -/
+theorem Inv.insert_merge {tk : Tasks} {seen : List Name} (h : Inv tk seen) (b : Name) (ex g : Task)
+    (own : List Name) (hex : lookup tk b = some ex) (hexs : ex.hasSubtask = true) (hname : g.name = b)
+    (hsub : g.subtaskOf = none) (hgs : g.hasSubtask = true) (hdeps : g.taskDep = own ++ ex.taskDep) :
+    Inv (insert tk b g) seen := by
+  have hmem := lookup_mem tk b ex hex
+  have hexsub : ex.subtaskOf = none := h.groupPlain (b, ex) hmem hexs
+  have hexname : ex.name = b := h.keyName (b, ex) hmem
+  refine ⟨?_, ?_, ?_, ?_, ?_⟩
+  · intro p hp
+    rcases mem_insert _ _ _ p hp with h' | h'
+    · exact h.keyName p h'
+    · subst h'; exact hname
+  · intro p hp
+    rcases mem_insert _ _ _ p hp with h' | h'
+    · exact h.seenKeys p h'
+    · subst h'; exact h.seenKeys (b, ex) hmem
+  · intro p hp c hc
+    rcases mem_insert _ _ _ p hp with h' | h'
+    · obtain ⟨g0, hg0, hs0⟩ := h.hasGroup p h' c hc
+      by_cases hcb : c = b
+      · subst hcb; exact ⟨g, lookup_insert_self _ _ _, hgs⟩
+      · exact ⟨g0, by rw [lookup_insert_ne _ _ _ _ hcb]; exact hg0, hs0⟩
+    · subst h'; rw [hsub] at hc; cases hc
+  · intro c gc hgc
+    rw [subsIn_insert_same tk b c ex g hex (by rw [hsub, hexsub]) (by rw [hname, hexname])]
+    by_cases hcb : c = b
+    · subst hcb
+      rw [lookup_insert_self] at hgc
+      cases hgc
+      rw [hdeps]
+      exact (h.groupDeps c ex hex).trans (List.sublist_append_right _ _)
+    · rw [lookup_insert_ne _ _ _ _ hcb] at hgc
+      exact h.groupDeps c gc hgc
+  · intro p hp hs
+    rcases mem_insert _ _ _ p hp with h' | h'
+    · exact h.groupPlain p h' hs
+    · subst h'; exact hsub
 
 end DoitModel.Load
